@@ -23,3 +23,26 @@ def cxx_tu(preludes, namespace, slices_text, wrappers, pre_ns=""):
     else:
         t += slices_text + "\n"
     return t + wrappers
+
+
+def loop_contract(func_symbol, loop_id, invariants, assigns, decreases, locals_map, sources=("spec.c",)):
+    """One entry of a --loop-contracts-file.  func_symbol is the full mangled symbol of the function (as shown by
+    goto-instrument --show-loops); locals_map maps names used in the clauses to suffixes below that symbol."""
+    import re as _re
+    sm = ";".join("%s,%s::%s" % (k, func_symbol, v) for k, v in locals_map.items())
+    ent = {"loop_id": str(loop_id), "invariants": invariants, "assigns": assigns, "symbol_map": sm}
+    if decreases:
+        ent["decreases"] = decreases
+    return {"regex": _re.escape(func_symbol), "entry": ent, "sources": list(sources)}
+
+
+def loops_file(contracts):
+    """Assemble the JSON for --loop-contracts-file from loop_contract() entries."""
+    funcs = {}
+    srcs = []
+    for c in contracts:
+        funcs.setdefault(c["regex"], []).append(c["entry"])
+        for s in c["sources"]:
+            if s not in srcs:
+                srcs.append(s)
+    return {"sources": srcs, "functions": [{k: v} for k, v in funcs.items()]}
